@@ -135,3 +135,14 @@ impl<'a, K, N, E> Method<'a, K, N, E> {
 pub fn targets_of<K, N, E>(edges: &Vec<Edge<K, N, E>>) -> (r: Vec<Node<K, N, E>>)
     ensures r@ == edges@.map_values(|e: Edge<K, N, E>| e.1)
 { unimplemented!() }
+
+//@if ug,sug
+impl<K, N, E> Node<K, N, E> {
+    // number of leading entries of adjs() that this node created itself
+    pub uninterp spec fn n_created(&self) -> nat;
+    #[verifier::external_body]
+    pub fn created_degree(&self) -> (r: usize)
+        ensures r == self.n_created()
+    { unimplemented!() }
+}
+//@endif
